@@ -47,6 +47,7 @@ class ItemSpec:
         self.blocks = []
         self.rewrites = []
         self.external_body = False
+        self.pub_fields = False
         self.props = []
         self.line = line
         self.vspec = None
@@ -118,6 +119,8 @@ def parse_vspec(path):
                 cur_item.rewrites.append((m.group(1), int(m.group(2)), m.group(3).replace('\\"', '"'), m.group(4).replace('\\"', '"'), ln))
             elif key == "external_body":
                 cur_item.external_body = True
+            elif key == "pub_fields":
+                cur_item.pub_fields = True
             elif key == "props":
                 cur_item.props = sorted(set(cur_item.props) | set(rest.split()))
             elif key == "default_props":
@@ -270,6 +273,16 @@ def emit_item(spec, repo, out, stats, vspec_path, cache):
                     pieces[i] = ("src", t, p[2])
                     stats["rewrites"].setdefault("R6", 0)
                     stats["rewrites"]["R6"] += n6
+    # R1 (fields): private named fields of a struct become `pub` (Verus forbids private field
+    # access in the specifications of public functions)
+    if spec.pub_fields:
+        for i, p in enumerate(pieces):
+            if p[0] == "src":
+                t, n1 = re.subn(r"(?m)^(\s+)(?!pub\b)([a-z_][A-Za-z0-9_]*\s*:\s)", r"\1pub \2", p[1])
+                if n1:
+                    pieces[i] = ("src", t, p[2])
+                    stats["rewrites"].setdefault("R1", 0)
+                    stats["rewrites"]["R1"] += n1
     # external_body: attribute in front
     if spec.external_body:
         out.add("#[verifier::external_body]", "gen", None, None, fn)
